@@ -287,7 +287,17 @@ impl KnownWord {
     #[must_use]
     pub fn sar(self, rhs: Self) -> Self {
         // We need the value to be signed to make it an arithmetic shift
-        let result = self.value_le_signed() >> rhs.value_le();
+        let shift = rhs.value_le();
+        let result = if shift >= U256::from(256u32) {
+            // Shifting by the word size or more leaves only copies of the sign bit
+            if self.value_le_signed() < I256::new(0) {
+                I256::new(-1)
+            } else {
+                I256::new(0)
+            }
+        } else {
+            self.value_le_signed() >> shift
+        };
 
         // We are already LE, but need to turn it back into the unsigned internal rep
         KnownWord::from_le_signed(result)
@@ -402,7 +412,11 @@ impl std::ops::Shl<KnownWord> for KnownWord {
 
     /// Computes the left shift of `self` by `rhs`.
     fn shl(self, rhs: KnownWord) -> Self::Output {
-        KnownWord::from_le(self.value_le() << rhs.value_le())
+        if rhs.value_le() >= U256::from(256u32) {
+            KnownWord::zero()
+        } else {
+            KnownWord::from_le(self.value_le() << rhs.value_le())
+        }
     }
 }
 
@@ -411,7 +425,11 @@ impl std::ops::Shr<KnownWord> for KnownWord {
 
     /// Computes the unsigned right shift of `self` by `rhs`.
     fn shr(self, rhs: KnownWord) -> Self::Output {
-        KnownWord::from_le(self.value_le() >> rhs.value_le())
+        if rhs.value_le() >= U256::from(256u32) {
+            KnownWord::zero()
+        } else {
+            KnownWord::from_le(self.value_le() >> rhs.value_le())
+        }
     }
 }
 
